@@ -11,6 +11,7 @@ THEOREMS = [
     'Sourcer.C02_tree_well_shaped_and_yield',
     'Sourcer.C02_generated_code_builds_that_tree',
     'Sourcer.C02_reductions_preserve_order',
+    'Sourcer.C02_run_is_maximal',
     'Sourcer.C02_unique',
     'Sourcer.C02_result_is_the_well_shaped_tree',
     'Sourcer.C01_codegen_refines_peg',
@@ -21,8 +22,8 @@ TIE_MODULES = ['Tie.Flags']
 ASSUMPTIONS = [
     'C02_tree_well_shaped_and_yield needs the rows of a table to be tagged (prec, assoc) with assoc = 0 on prefix rows and != 0 on infix rows; '
     'the driver evaluates that hypothesis (allTablesTagged) on every table the real generator builds (tags are read from the source text of the real tagger lambdas)',
-    'maximality of the run (the expression extends over the longest run that fits) is not a theorem; it is decided by the exhaustive '
-    'correspondence (all token strings up to the length bound against the operational specification)',
+    'C02_run_is_maximal states maximality as the exhaustive list of reasons for which the loop ends (no infix operator readable, dangling '
+    'operator without operand, non-associative repeat); "longest match among rows" is the Longest semantics of the sub-parsers (C01)',
     'across rows the longest match wins (Longest), inside a row the first alternative that matches (ordered choice): part of the sub-parsers, covered by C01',
 ]
 
